@@ -19,6 +19,7 @@ import Driver.Inlines
 import Driver.AstTrace
 import Driver.Attribute
 import Driver.ExtDecline
+import Driver.Convert
 namespace Driver
 
 def handle (line : String) : String :=
@@ -45,6 +46,7 @@ def handle (line : String) : String :=
   | "asttrace" :: rest => handleAstTrace rest
   | "attribute" :: rest => handleAttribute rest
   | "extdecline" :: rest => handleExtDecline rest
+  | "convert" :: rest => handleConvert rest
   | _ => bad
 
 partial def loop (hin hout : IO.FS.Stream) : IO Unit := do
